@@ -571,7 +571,7 @@ func c18merge(c *an.Ctx) {
 		for root.Parent() != nil {
 			root = root.Parent()
 		}
-		if !strings.HasPrefix(root.Name(), "Get") {
+		if !strings.HasPrefix(an.BaseName(root), "Get") {
 			continue
 		}
 		for _, l := range an.NaturalLoops(fn) {
